@@ -1,2 +1,86 @@
--- line-protocol model driver for C13 (stub)
-def main : IO Unit := IO.println "stub C13"
+/- Line-protocol model driver for C13 (number <-> text).  Same protocol as harness/C13/scan.c:
+    num <base> <hex>      -> "ok <bits16>" | "err"
+    i64 <hex> / u64 <hex> -> "ok <dec>" | "err"
+    p17 <bits16>          -> "<text> <text> <text> <bits16 read back>"
+    pint <bits16>         -> "<text> <bits16 read back>"      (integer-valued double, |x| <= 2^53)
+    s64rt <dec> / u64rt <dec> -> "<text> ok <dec>" | "<text> err"
+    big <base> <ex> <hex> -> "n first d0 d1 ..."   (digit array after the scaling loops of convert)
+-/
+import Driver.Util
+import JanetModel.Strtod.Model
+open Driver JanetModel.Strtod
+
+def hex16 (n : Nat) : String :=
+  String.ofList ((List.range 16).reverse.map (fun i => hexDigit (n / 16 ^ i % 16)))
+
+def parseHexNat (s : String) : Option Nat :=
+  s.toList.foldlM (fun acc c => (hexVal c).map (fun v => acc * 16 + v)) 0
+
+def bytesOf (s : String) : List Nat := s.toList.map (·.toNat)
+
+def showScan (r : Option Nat) : String :=
+  match r with
+  | some b => hex16 b
+  | none => "err"
+
+def step (_ : Unit) (toks : List String) : Unit × String :=
+  match toks with
+  | ["num", b, h] =>
+    match b.toNat?, bytesOfHex h with
+    | some base, some bs =>
+      match scanNumberBase bs base with
+      | some bits => ((), "ok " ++ hex16 bits)
+      | none => ((), "err")
+    | _, _ => ((), "bad-op")
+  | ["num", b] =>
+    match b.toNat? with
+    | some base => ((), match scanNumberBase [] base with | some bits => "ok " ++ hex16 bits | none => "err")
+    | none => ((), "bad-op")
+  | ["i64", h] =>
+    match bytesOfHex h with
+    | some bs => ((), match scanInt64 bs with | some v => s!"ok {v}" | none => "err")
+    | none => ((), "bad-op")
+  | ["i64"] => ((), match scanInt64 [] with | some v => s!"ok {v}" | none => "err")
+  | ["u64", h] =>
+    match bytesOfHex h with
+    | some bs => ((), match scanUint64 bs with | some v => s!"ok {v}" | none => "err")
+    | none => ((), "bad-op")
+  | ["u64"] => ((), match scanUint64 [] with | some v => s!"ok {v}" | none => "err")
+  | ["p17", h] =>
+    match parseHexNat h with
+    | some bits =>
+      let t := print17 bits
+      let ts := String.ofList t
+      ((), ts ++ " " ++ ts ++ " " ++ ts ++ " " ++ showScan (scanNumberBase (t.map (·.toNat)) 0))
+    | none => ((), "bad-op")
+  | ["pint", h] =>
+    match parseHexNat h with
+    | some bits =>
+      let neg := bits ≥ 0x8000000000000000
+      let (m, e) := decodeBits (bits % 0x8000000000000000)
+      let v := if e ≥ 0 then m <<< e.toNat else m >>> (-e).toNat
+      let t := if v = 0 then "0" else (if neg then "-" else "") ++ toString v
+      ((), t ++ " " ++ showScan (scanNumberBase (bytesOf t) 0))
+    | none => ((), "bad-op")
+  | ["s64rt", d] =>
+    match d.toInt? with
+    | some x =>
+      let t := toString x
+      ((), t ++ (match scanInt64 (bytesOf t) with | some v => s!" ok {v}" | none => " err"))
+    | none => ((), "bad-op")
+  | ["u64rt", d] =>
+    match d.toNat? with
+    | some x =>
+      let t := toString x
+      ((), t ++ (match scanUint64 (bytesOf t) with | some v => s!" ok {v}" | none => " err"))
+    | none => ((), "bad-op")
+  | ["big", b, e, h] =>
+    match b.toNat?, e.toInt?, bytesOfHex h with
+    | some base, some ex, some bs =>
+      let m0 := bs.foldl (fun m c => bignat_muladd m base (digitOf c)) BigNat.zero
+      let r := (scale m0 base ex).1
+      ((), String.intercalate " " (toString r.digits.length :: toString r.first :: r.digits.map toString))
+    | _, _, _ => ((), "bad-op")
+  | _ => ((), "bad-op")
+
+def main : IO Unit := runLoop () step
